@@ -1,5 +1,6 @@
 //! Per-property checks.
 
+pub mod bigbatch;
 pub mod c06;
 pub mod c07;
 pub mod c08;
@@ -88,7 +89,7 @@ pub fn seq_check(prop: &str, tier: &str, suites: Vec<Suite>, tags: &[&str], budg
             }
         }
     }
-    report.set("suites", serde_json::Value::Object(per_suite));
+    report.merge_map("suites", per_suite);
     report.set("exhaustive", all_complete);
     report.set("foreign_violations_seen", foreign);
     report.set(
@@ -121,7 +122,13 @@ pub fn run_check(prop: &str, tier: &str) -> i32 {
         "C02" => {
             let s = suites::crash_suites(thorough);
             let plan = crashprops::CrashPlan { crash: true, layout_tag: "C10", nest: 0, reopen_cycles: 0, sector_tear: true, layout: false };
-            crashprops::crash_check(prop, s, &["C02", "C11"], plan, budget, &mut report);
+            crashprops::crash_check(prop, s, &["C02", "C11"], plan, budget * 0.6, &mut report);
+            // one history with a >507-extent batch: torn multi-block journal writes
+            bigbatch::run(&["C02", "C03"], &mut report);
+            // flush acknowledgements racing the background flusher, every schedule within the bound
+            let seen = std::sync::Mutex::new(std::collections::HashSet::new());
+            let judge = |p: &schedprops::Program, ex: &schedprops::Exec| schedprops::judge_acknowledged(p, ex, &seen);
+            schedprops::run_programs(c08::ack_programs(), if thorough { 3 } else { 2 }, 4000, budget * 0.3, &judge, None, &["C02", "C03"], &mut report);
         }
         "C03" => {
             let s = suites::crash_suites(thorough);
@@ -349,6 +356,7 @@ pub fn all_sched_programs() -> Vec<schedprops::Program> {
         v.extend(c08::programs(thorough));
         v.extend(c08::contention_programs(thorough));
         v.extend(c08::write_behind_programs());
+        v.extend(c08::ack_programs());
         v.extend(concprogs::scan_programs(thorough));
         v.extend(concprogs::limit_programs(thorough));
         v.extend(concprogs::sweep_programs(thorough));
@@ -385,7 +393,11 @@ pub fn run_one_path(suite: &str, hist: &[u16], thorough: bool) -> i32 {
 }
 
 pub fn run_suite(name: &str, depth: usize, seconds: f64) -> i32 {
-    let Some(mut s) = suites::find_suite(name, false) else {
+    let found = suites::find_suite(name, false)
+        .or_else(|| suites::crash_suites(false).into_iter().find(|s| s.name == name))
+        .or_else(|| suites::partition_suites(false).into_iter().find(|s| s.name == name))
+        .or_else(|| suites::layout_suites(false).into_iter().find(|s| s.name == name));
+    let Some(mut s) = found else {
         eprintln!("no suite {name}");
         return 2;
     };
